@@ -17,7 +17,7 @@ import random
 from .. import hooks
 from ..fingerprint import contexts
 from ..gen import Forest
-from ..lex import DIALECT_OF, tokenize
+from ..lex import DIALECT_OF, sig, tokenize
 from ..prog import DIALECT_CLASSES, Failed, phash, registry, run, show
 
 PROP = "C08"
@@ -36,7 +36,7 @@ WORKERS = {"quick": 16, "thorough": 16}
 
 PROBES = ["identifier", "placeholder", "boolean", "boolean-criterion", "array", "interval", "json-value", "set-operand", "groupby-alias", "row-limit",
           "string-backslash"]
-CONTAINERS = ["from", "join", "in", "select-item", "cte", "set-operand", "insert-select", "comparison"]
+CONTAINERS = ["from", "join", "in", "select-item", "cte", "set-operand", "insert-select", "comparison", "create-as-select"]
 
 
 def R():
@@ -100,6 +100,8 @@ def wrap(Qx, inner, container, level):
     if container == "insert-select":
         s = inner.as_("w%d" % level)
         return Qx.into(r["Table"]("dst")).from_(s).select(s.star)
+    if container == "create-as-select":
+        return Qx.create_table("nt%d" % level).as_select(inner)
     raise ValueError(container)
 
 
@@ -114,6 +116,18 @@ def cases(tier, seed, shard, nshards):
                         k += 1
                         if k % nshards == shard:
                             yield {"k": "probe", "d": d, "probe": probe, "chain": chain, "cls": cls, "mode": mode}
+    # convention-sensitive leaves inside every operand slot of every term class (term-level nesting)
+    from ..zoo import zoo
+    for d in DIALECT_CLASSES:
+        for e in zoo()[0]:
+            if e["cls"] in ("AtTimezone", "Values"):
+                continue  # column-only constructors
+            for slot in range(e["arity"]):
+                for leaf in LEAVES:
+                    for mode in ("inline", "param"):
+                        k += 1
+                        if k % nshards == shard:
+                            yield {"k": "term", "d": d, "e": e["label"], "slot": slot, "leaf": leaf, "mode": mode}
     rnd = random.Random("C08:%d:%d" % (seed, shard))
     for _ in range((6000 if tier == "quick" else 120000) // nshards):
         yield {"k": "probe", "d": rnd.choice(DIALECT_CLASSES), "probe": rnd.choice(PROBES), "chain": [rnd.choice(CONTAINERS[:6]) for _ in range(3)],
@@ -240,7 +254,7 @@ def run_probe(case, mon):
     # the root rendered the way users do it - str() / get_sql() without a context - must follow the same conventions
     if case["mode"] == "inline":
         try:
-            dflt = str(o) if isinstance(o, r["_SetOperation"]) else (o.get_sql() if isinstance(o, r["QueryBuilder"]) else None)
+            dflt = str(o) if isinstance(o, (r["_SetOperation"], r["CreateQueryBuilder"])) else (o.get_sql() if isinstance(o, r["QueryBuilder"]) else None)
         except Exception as e:
             dflt = "<exc:%s>" % type(e).__name__
         if dflt is not None:
@@ -469,8 +483,92 @@ def run_hook(case, mon):
         mon.count("hooked_statements", n)
 
 
+LEAVES = ["interval", "boolean", "array", "json", "string-backslash", "number", "field", "table", "subquery", "custom-function"]
+
+
+def make_leaf(name, Q):
+    r = R()
+    t = r["Table"]("tprobe")
+    if name == "interval":
+        return r["Interval"](days=3, hours=4)
+    if name == "boolean":
+        return r["ValueWrapper"](True)
+    if name == "array":
+        return r["Array"](1, 2)
+    if name == "json":
+        return r["JSON"]({"k": "it's"})
+    if name == "string-backslash":
+        return r["ValueWrapper"]("a\\b")
+    if name == "number":
+        return r["ValueWrapper"](4242)
+    if name == "field":
+        return t.pcol
+    if name == "table":
+        return t
+    if name == "subquery":
+        return Q.from_(t).select(t.pcol).where(t.flag == True)  # noqa: E712
+    if name == "custom-function":
+        return r["CustomFunction"]("MYFN", ["x", "y"])(t.pcol, r["Interval"](months=2))
+    raise ValueError(name)
+
+
+_zoo = None
+
+
+def run_term(case, mon):
+    """A convention-sensitive leaf in one operand slot of one term class: every nested render must receive the root's
+    conventions, and (inline) the leaf must be written exactly as when it is rendered on its own under the same context."""
+    global _zoo
+    r = R()
+    d = case["d"]
+    fam = DIALECT_OF[d] if d != "Query" else "generic"
+    if _zoo is None:
+        from ..zoo import zoo
+        _zoo = {e["label"]: e for e in zoo()[0]}
+    e = _zoo[case["e"]]
+    t = r["Table"]("tprobe")
+    # terms are rendered as a statement renders its clauses: nested queries are asked for brackets (subquery=True)
+    ctx0 = contexts()[d].copy(subquery=True)
+    try:
+        leaf = make_leaf(case["leaf"], r[d])
+        ops = [t.field("o%d" % i) for i in range(e["arity"])]
+        ops[case["slot"]] = leaf
+        term = e["make"](ops)
+        alone = leaf.get_sql(ctx0)
+    except Exception as ex:
+        mon.count("term_unbuildable")
+        mon.add("term_unbuildable", "%s:%s:%s" % (case["e"], case["leaf"], type(ex).__name__))
+        return
+    try:
+        with hooks.collect() as tree:
+            sql = render(term, ctx0, case["mode"])
+    except Exception as ex:
+        mon.count("term_render_raises")
+        mon.add("term_render_raises", "%s:%s:%s" % (case["e"], case["leaf"], type(ex).__name__))
+        return
+    mon.count("term_embeddings_rendered")
+    mon.add("term_cells", "%s#%d|%s" % (case["e"], case["slot"], case["leaf"]))
+    bad = context_fault(tree, ctx0, case["mode"])
+    if bad:
+        conv, node = bad
+        mon.violation("%s:term-operand:%s" % (conv, node), "%s: %s in slot %d of %s (%s): a nested %s render received a context whose %s differs from the root's: %r" % (
+            d, case["leaf"], case["slot"], case["e"], case["mode"], node, conv, sql[:200]))
+        return
+    mon.count("hook_contexts_checked", len(tree.events))
+    if case["mode"] == "inline":
+        ta, tt = sig(tokenize(alone, d)), sig(tokenize(sql, d))
+        n = len(ta)
+        found = alone in sql or any(tt[i:i + n] == ta for i in range(len(tt) - n + 1))
+        mon.count("term_leaf_containments")
+        if not found:
+            mon.violation("leaf-rewritten:term-operand:%s:%s" % (case["leaf"], e["cls"]), "%s: %s renders %r on its own but slot %d of %s shows %r" % (
+                d, case["leaf"], alone[:120], case["slot"], case["e"], sql[:240]))
+            return
+    mon.nontrivial(case)
+
+
 def run_case(case, mon):
-    {"probe": run_probe, "neutral": run_neutral, "hook": run_hook}[case["k"]](case, mon)
+    {"probe": run_probe, "neutral": run_neutral, "hook": run_hook, "term": run_term}[case["k"]](case, mon)
 
 
 def FLOORS(tier):
